@@ -56,16 +56,25 @@ class Profiler:
     enabled = options.args().profile
     # static profiler, global within one process
     profiler = None
+    # process the static profiler belongs to
+    pid = os.getpid()
 
     def __init__(self, is_main=False):
         """Create a profiler."""
         if Profiler.enabled:
             if multiprocessing.parent_process() is None:
-                self.enabled = True
+                self.enabled = is_main
                 self.filename = '.profile.prof'
             else:
                 self.enabled = True
                 self.filename = f'.profile-{os.getpid()}.prof'
+                if Profiler.pid != os.getpid():
+                    # forked while the main process was being profiled: stop
+                    # the inherited profiler and start over for this process
+                    Profiler.pid = os.getpid()
+                    if Profiler.profiler is not None:
+                        Profiler.profiler.disable()
+                        Profiler.profiler = None
             if Profiler.profiler is None:
                 Profiler.profiler = cProfile.Profile()
 
